@@ -19,6 +19,12 @@ pub enum TamperKind {
     Append { hex: String },
     /// rewrite the file with identical bytes (must stay accepted)
     RewriteSame,
+    /// toggle the case of the nth ASCII letter of the file (counting modulo their number): `ab12` and `AB12`
+    /// spell the same digest for a lenient parser, yet the file was touched
+    FlipCase { nth: usize },
+    /// replace the nth occurrence (modulo their number) of byte `from` by `to`: look-alikes that lenient
+    /// parsers and normalisers erase ('0' -> '+', LF -> CR, space -> tab, ...)
+    Replace { from: u8, to: u8, nth: usize },
 }
 #[derive(Serialize, Deserialize, Clone, Copy, Debug, PartialEq)]
 pub enum Which {
@@ -108,6 +114,17 @@ fn gen_tamper(rng: &mut Rng, sizes: [usize; 3], bytes: [&[u8]; 3]) -> Tamper {
             return Tamper { file, kind: TamperKind::Subst { offset, value, alt: b'%' }, keep_mtime: rng.chance(1, 3) };
         }
     }
+    if rng.chance(1, 6) {
+        let nth = rng.below(4096);
+        let kind = match rng.below(3) {
+            0 => TamperKind::FlipCase { nth },
+            _ => {
+                let (from, to) = *rng.pick(&[(b'0', b'+'), (b'\n', b'\r'), (b' ', b'\t'), (b'0', b'O'), (b'1', b'l'), (b'"', b'\''), (b'e', b'E'), (b'\n', b' ')]);
+                TamperKind::Replace { from, to, nth }
+            }
+        };
+        return Tamper { file, kind, keep_mtime: rng.chance(1, 3) };
+    }
     let kind = match rng.below(10) {
         0..=5 => {
             let offset = pick_offsets(rng, len);
@@ -148,6 +165,24 @@ fn apply(t: &TamperKind, orig: &[u8]) -> Vec<u8> {
             v
         }
         TamperKind::RewriteSame => orig.to_vec(),
+        TamperKind::FlipCase { nth } => {
+            let mut v = orig.to_vec();
+            let at: Vec<usize> = (0..v.len()).filter(|&i| v[i].is_ascii_alphabetic()).collect();
+            if !at.is_empty() {
+                let i = at[*nth % at.len()];
+                v[i] ^= 0x20;
+            }
+            v
+        }
+        TamperKind::Replace { from, to, nth } => {
+            let mut v = orig.to_vec();
+            let at: Vec<usize> = (0..v.len()).filter(|&i| v[i] == *from).collect();
+            if !at.is_empty() {
+                let i = at[*nth % at.len()];
+                v[i] = *to;
+            }
+            v
+        }
     }
 }
 
@@ -301,7 +336,7 @@ fn exec_c17(sc: &C17Scenario) -> Outcome {
             }
         }
         let desc = format!("{:?} (file {} B -> {} B)", t, orig[i].len(), new.len());
-        out.fault(&format!("tamper_{:?}_{}", t.file, match &t.kind { TamperKind::Subst { .. } => "subst", TamperKind::DropTail { .. } => "droptail", TamperKind::Truncate { .. } => "truncate", TamperKind::Append { .. } => "append", TamperKind::RewriteSame => "rewrite_same" }).to_lowercase(), 1);
+        out.fault(&format!("tamper_{:?}_{}", t.file, match &t.kind { TamperKind::Subst { .. } => "subst", TamperKind::DropTail { .. } => "droptail", TamperKind::Truncate { .. } => "truncate", TamperKind::Append { .. } => "append", TamperKind::RewriteSame => "rewrite_same", TamperKind::FlipCase { .. } => "flip_case", TamperKind::Replace { .. } => "look_alike_byte" }).to_lowercase(), 1);
         if !changed {
             if !positive(&mut w, &mut out, &format!("after {:?}", t)) {
                 out.trace.push(format!("failing tamper: {}", serde_json::to_string(t).unwrap()));
